@@ -243,7 +243,11 @@ class Offers:
         self.prot.datagram_received(net.sd_bytes(entries, sid, reboot=fl), ADDRS[a], False)
 
     def refresh(self, slot, ttl):
-        self._send(slot[1], [net.offer(0x1000 + slot[0], 1, 1, 0, ttl, o1=[refwire.ep4("10.0.1.1", 3000)])])
+        # the endpoint sits in the first or in the second option run, alone or next to another option, from refresh to refresh
+        self._n_offers = getattr(self, "_n_offers", 0) + 1
+        ep, lb = refwire.ep4("10.0.1.1", 3000), refwire.opt_loadbal(1, 1)
+        o1, o2 = (([ep], []), ([], [ep]), ([ep], [lb]), ([lb], [ep]))[(self._n_offers // 2) % 4]
+        self._send(slot[1], [net.offer(0x1000 + slot[0], 1, 1, 0, ttl, o1=o1, o2=o2)])
 
     def stop(self, slot):
         self._send(slot[1], [net.offer(0x1000 + slot[0], 1, 1, 0, 0)])
